@@ -120,7 +120,7 @@ func run(c *vf.Ctx) {
 		dir, tr := buildRepo(c, g, c.Rand("repo", i))
 		bases = append(bases, base{dir, tr})
 	}
-	nruns := c.N(35, 900)
+	nruns := c.N(60, 1500)
 	perBatch := 5
 	var cfgs []runCfg
 	for i := 0; i < nruns; i++ {
@@ -221,6 +221,9 @@ func run(c *vf.Ctx) {
 				c.Seen("caps", k)
 			}
 		}
+		if len(batch) > 0 {
+			c.Sample(map[string]any{"one_run_of_the_batch": batch[0], "runs_in_batch": len(batch), "reads_ok_in_batch": out.Counts["reads_ok"], "failure_keys_in_batch": len(out.Fails)})
+		}
 		for _, s := range out.Shapes {
 			parts := strings.SplitN(s, "|", 2)
 			c.Eval(parts[1], parts[0] == "1")
@@ -270,12 +273,12 @@ func run(c *vf.Ctx) {
 	})
 	c.Extra("race_report_keys", raceKeys)
 	c.Extra("git_invocations", gitx.Calls.Load())
-	c.Floor("runs completed", c.Counter("runs"), c.N(32, 800))
-	c.Floor("reads verified against ground truth", c.Counter("reads_ok"), c.N(50000, 2000000))
+	c.Floor("runs completed", c.Counter("runs"), c.N(55, 1300))
+	c.Floor("reads verified against ground truth", c.Counter("reads_ok"), c.N(100000, 3000000))
 	c.Floor("pool capacities exercised", c.SeenCount("caps"), 4)
-	c.Floor("runs with an active writer instance", c.Counter("runs_with_writer"), c.N(12, 400))
-	c.Floor("objects published by a writer and then read by the reader instance", c.Counter("published_reads_ok"), c.N(200, 8000))
-	c.Floor("evictions observed in reader storages", c.Counter("pool_evictions"), c.N(300, 10000))
+	c.Floor("runs with an active writer instance", c.Counter("runs_with_writer"), c.N(20, 500))
+	c.Floor("objects published by a writer and then read by the reader instance", c.Counter("published_reads_ok"), c.N(400, 10000))
+	c.Floor("evictions observed in reader storages", c.Counter("pool_evictions"), c.N(600, 15000))
 	c.Assume("the race detector reports only races that the produced schedules exercise")
 	c.Assume("objects added by the writer are unreachable, so runs with a repacker do not check them; repack runs check the ground-truth (reachable) objects only")
 }
